@@ -45,5 +45,14 @@ pub fn run(sc: &Value) -> Value {
         }
         steps.push(snapshot(&fx, &names));
     }
+    if sc["roundtrip"].as_bool().unwrap_or(false) {
+        use rateslib::json::JSON;
+        let text = fx.to_json().unwrap();
+        return match std::panic::catch_unwind(|| FXRates::from_json(&text)) {
+            Ok(Ok(fx2)) => json!({"steps": steps, "reloaded": snapshot(&fx2, &names), "equal": fx2 == fx, "text": text}),
+            Ok(Err(e)) => json!({"steps": steps, "reload_err": e.to_string()}),
+            Err(_) => json!({"steps": steps, "reload_panic": true}),
+        };
+    }
     json!({"steps": steps})
 }
